@@ -168,6 +168,14 @@ M("c04.toy.dsa.verify.modq", "C04", DSAPY, "v = (pow(g, u1, p) * pow(y, u2, p) %
 M("c04.toy.dsa.sign.r", "C04", DSAPY, "r = pow(g, k, p) % q  # r = (g**k mod p) mod q", "r = pow(g, k, q) % p", "K-pw|dsa.toy.sign")
 M("c04.twin.toy.ecdsa.verify", "C04", ECCPY, "return (point1 + point2).x % order == rs[0]", "v = (point2 + point1).x % order\n        return v == rs[0]", twin=True)
 
+GHP, GHC = "src/ghash_portable.c", "src/ghash_clmul.c"
+M("c01.ghash.portable.poly", "C01", GHP, "0xE100000000000000ULL", "0xE000000000000000ULL", "K-pw|c|ghash.portable")
+M("c16.ghash.portable.shift", "C16", GHP, "(*next)[1] = (*cur)[1]>>1 | (*cur)[0]<<63;", "(*next)[1] = (*cur)[1]>>1 | (*cur)[0]<<62;", "K-pw|c|ghash.portable")
+M("c16.ghash.clmul.reduce.const", "C16", GHC, "const uint64_t c2 = (uint64_t)0xc2 << 56;", "const uint64_t c2 = (uint64_t)0xc3 << 56;", "K-pw|c|ghash.clmul")
+M("c02.ghash.clmul.aggregate", "C02", GHC, "        clmult(&r1, &r2, xm2, expanded->h[2]);", "        clmult(&r1, &r2, xm2, expanded->h[1]);", "K-pw|c|ghash.clmul")
+M("c01.ghash.clmul.multx", "C01", GHC, "    r = (msb ^ 1) - 1;", "    r = msb - 1;", "K-pw|c|ghash.clmul")
+M("c16.ghash.clmul.len16", "C16", GHC, "    len16 = len ^ (len & 0x3F);", "    len16 = len ^ (len & 0x1F);", "K-pw|c|ghash.clmul")
+M("c16.twin.ghash.clmul.cross", "C16", GHC, "    e = _mm_clmulepi64_si128(a, b, 0x10);   /* A0*B1 */\n    f = _mm_clmulepi64_si128(a, b, 0x01);   /* A1*B0 */", "    e = _mm_clmulepi64_si128(a, b, 0x01);\n    f = _mm_clmulepi64_si128(a, b, 0x10);", twin=True)
 OCBC = "src/raw_ocb.c"
 M("c02.ocb.double.const", "C02", OCBC, "(carry & 0x87)", "(carry & 0x86)", "K-pw|c|ocb.crypt")
 M("c01.ocb.checksum.pad", "C01", OCBC, "        state->checksum[in_len] ^= 0x80;", "        state->checksum[in_len] |= 0x80;", "K-pw|c|ocb.crypt")
